@@ -1,0 +1,14 @@
+//go:build verif
+
+package bug
+
+// Contracts for the bug entity (properties C07, C10).
+// Comment-only file: it is compiled only with -tags verif and contains no code.
+
+// operationUnmarshaler is the implementation behind dag.Definition.OperationUnmarshaler for bugs.
+// It must not panic on any input. (That it hands back a non-nil operation whenever it returns no error
+// depends on encoding/json leaving a non-nil target in place for a JSON object; that clause stays an
+// assumption on the Definition.OperationUnmarshaler field, see entity/dag/verif_contracts.go.)
+//@ func operationUnmarshaler
+//@   props C07
+//@   nopanic
